@@ -28,6 +28,10 @@ func CutOffAbsoluteValue(m memory.Memory, start uint16, end uint16, p float64) u
 
 	l := float64(lenKeys)
 	cutOffIndex := int(l * (1.0 - p))
+	if cutOffIndex >= lenKeys {
+		// p == 0 selects the largest value
+		cutOffIndex = lenKeys - 1
+	}
 
 	return keys[cutOffIndex]
 }
@@ -46,6 +50,10 @@ func CutOffMedian(m memory.Memory, start uint16, end uint16, p float64) uint64 {
 
 	l := float64(len(temp))
 	cutOffIndex := int(l * (1.0 - p))
+	if cutOffIndex >= len(temp) {
+		// p == 0 selects the largest value
+		cutOffIndex = len(temp) - 1
+	}
 
 	return temp[cutOffIndex]
 }
